@@ -49,6 +49,27 @@ def sh(cmd, timeout=None, cwd=None, env=None, inp=None, memlimit_gb=None):
 class Inconclusive(Exception):
     pass
 
+_hd = None
+def headers_digest():
+    """digest of every header that a native object may depend on (repo working tree + harness dir)"""
+    global _hd
+    if _hd is None:
+        h = hashlib.sha1()
+        for d in (os.path.join(REPO, 'libzwerg'), os.path.join(REPO, 'extern'), os.path.join(REPO, 'dwgrep'), HARNESS, REPO):
+            if not os.path.isdir(d):
+                continue
+            for fn in sorted(os.listdir(d)):
+                if fn.endswith(('.hh', '.h', '.hpp', '.awk', '.in', '.cmake', '.yy', '.ll')):
+                    h.update(fn.encode())
+                    h.update(open(os.path.join(d, fn), 'rb').read())
+        _hd = h.hexdigest()
+    return _hd
+
+def cache_dir():
+    d = os.environ.get('VP_CACHE', '/var/tmp/vp-objcache')
+    os.makedirs(d, exist_ok=True)
+    return d
+
 # ------------------------------------------------------------------------- build flags
 def repo_flags():
     """compile flags of the real build (from build.ninja when present)"""
@@ -180,8 +201,57 @@ class Ctx:
         rc, o, e, _, _ = sh(['llvm-link-14'] + bcs + ['-o', linked])
         if rc != 0:
             raise Inconclusive('llvm-link failed: ' + e[-800:])
+        if entries is None:
+            return linked
+        return self.reduce_ir(linked, entries, keep)
+
+    def inline_ir(self, ll, keep_rx=(), threshold=400):
+        """second optimisation round on a reduced module: drop clang's -fno-inline `noinline'
+        markers (except on functions that are overridden / trapped / emptied by name) and run the
+        inliner plus clean-up.  Null checks and size computations then sit next to the branches
+        that use them, which CBMC's symbolic execution needs in order to keep pointers concrete."""
+        txt = open(ll).read()
+        groups = {}
+        for m in re.finditer(r'^attributes (#\d+) = \{(.*)\}$', txt, re.M):
+            groups[m.group(1)] = m.group(2)
+        maxn = max([int(g[1:]) for g in groups] + [0])
+        newg = {}
+        def sub(g):
+            if g not in groups or not re.search(r'\b(noinline|optnone)\b', groups[g]):
+                return g
+            if g not in newg:
+                nonlocal maxn
+                maxn += 1
+                newg[g] = '#%d' % maxn
+            return newg[g]
+        rxs = [re.compile(x) for x in keep_rx]
+        out = []
+        for l in txt.split('\n'):
+            if l.startswith('define '):
+                m = re.search(r'@("(?:[^"\\]|\\.)*"|[-a-zA-Z$._0-9]+)\(', l)
+                name = m.group(1).strip('"') if m else ''
+                if not any(r.search(name) for r in rxs):
+                    # attribute group refs after the parameter list
+                    head, sep, tail = l.rpartition(')')
+                    tail = re.sub(r'#\d+', lambda mm: sub(mm.group()), tail)
+                    l = head + sep + tail
+            out.append(l)
+        for g, ng in newg.items():
+            body = re.sub(r'\b(noinline|optnone)\b', '', groups[g])
+            out.append('attributes %s = {%s}' % (ng, body))
+        ll2 = ll[:-3] + '.ni.ll'
+        open(ll2, 'w').write('\n'.join(out))
+        ll3 = ll[:-3] + '.inl.ll'
+        rc, o, e, _, _ = sh(['opt-14', '-passes=cgscc(inline),function(sroa,early-cse,simplifycfg,instsimplify,adce),globaldce',
+                             '-inline-threshold=%d' % threshold, '-S', ll2, '-o', ll3], timeout=600)
+        if rc != 0:
+            raise Inconclusive('opt (inline round) failed: ' + e[-800:])
+        return ll3
+
+    def reduce_ir(self, linked, entries, keep=(), tag='reduced'):
+        d = os.path.dirname(linked)
         api = ','.join(list(entries) + list(keep))
-        red = os.path.join(d, 'reduced.ll')
+        red = os.path.join(d, tag + '.ll')
         rc, o, e, _, _ = sh(['opt-14', '-enable-new-pm=0', '-internalize', '-internalize-public-api-list=' + api,
                              '-globaldce', '-S', linked, '-o', red])
         if rc != 0:
@@ -189,7 +259,7 @@ class Ctx:
         return red
 
     # ---- C
-    def to_c(self, ll, name, overrides=(), stubs=('cxxrt.c', 'vp_cbmc.c'), traps=()):
+    def to_c(self, ll, name, overrides=(), stubs=('cxxrt.c', 'vp_cbmc.c'), traps=(), empties=()):
         d = os.path.dirname(ll)
         out = os.path.join(d, name + '.c')
         info = os.path.join(d, name + '.info.json')
@@ -206,6 +276,8 @@ class Ctx:
             cmd += ['--candidate', cnd]
         for t in traps:
             cmd += ['--trap', t]
+        for t in empties:
+            cmd += ['--empty', t]
         rc, o, e, _, _ = sh(cmd, timeout=600)
         if rc != 0:
             raise Inconclusive('ll2c: ' + e[-1500:])
@@ -219,7 +291,7 @@ class Ctx:
                '--unwind', str(unwind), '--unwinding-assertions', '--no-malloc-may-fail',
                '--no-signed-overflow-check', '--no-undefined-shift-check', '--no-div-by-zero-check',
                '--pointer-check', '--bounds-check', '--pointer-primitive-check',
-               '--drop-unused-functions', '--slice-formula', '--json-ui']
+               '--drop-unused-functions', '--slice-formula', '--max-field-sensitivity-array-size', '2048', '--json-ui']
         if trace:
             cmd.append('--trace')
         us = {'vp_memset.0': 130, 'vp_memcpy.0': 130, 'vp_memmove.0': 130, 'vp_memmove.1': 130, 'vp_dup.0': 66,
@@ -283,9 +355,24 @@ class Ctx:
                 return self._native_objs[key]
             out = os.path.join(d, re.sub(r'[^A-Za-z0-9]', '_', tu) + '.o')
             cmd = ['g++'] + self.cxxflags(['-D' + x for x in defs]) + ['-O1', '-g', '-fno-access-control', '-fsanitize=address,undefined', '-fno-sanitize-recover=undefined', '-w', '-c', src, '-o', out]
+            # content-addressed object cache (sources + every header of the repo and harness dir + flags)
+            ck = None
+            if not tu.startswith('@gen/'):
+                ck = os.path.join(cache_dir(), hashlib.sha1((open(src, 'rb').read().decode('latin-1') + headers_digest() + ' '.join(cmd[:-3])).encode('latin-1')).hexdigest() + '.o')
+                if os.path.exists(ck):
+                    shutil.copy(ck, out)
+                    self._native_objs[key] = out
+                    return out
             rc, o, e, w, _ = sh(cmd, timeout=900)
             if rc != 0:
                 raise Inconclusive('g++ failed on %s: %s' % (tu, e[-1500:]))
+            if ck:
+                try:
+                    tmpf = ck + '.%d.tmp' % os.getpid()
+                    shutil.copy(out, tmpf)
+                    os.replace(tmpf, ck)
+                except Exception:
+                    pass
             self._native_objs[key] = out
             return out
         with ThreadPoolExecutor(8) as ex:
@@ -401,8 +488,10 @@ class Module:
     """one lowered module: repo TUs + harness TU -> C; several entries are checked on it"""
     def __init__(self, ctx, name, tus, harness, entries, stubs=('cxxrt.c', 'vp_cbmc.c', 'ostream_null.c'),
                  overrides=(), defs=(), native_tus=None, native_libs=('-ldl',), support=('@h/support_std.cc',),
-                 native_extra=(), keep=(), traps=()):
+                 native_extra=(), keep=(), traps=(), empties=(), inline=True):
+        self.inline = inline
         self.traps = tuple(traps)
+        self.empties = tuple(empties)
         self.ctx = ctx
         self.name = name
         self.tus = list(tus)
@@ -417,9 +506,12 @@ class Module:
         self.support = tuple(support)
         self.keep = tuple(keep)
         self.cfile = None
+        self.cfiles = {}
+        self.linked = None
         self.info = None
         self._exe = None
         self._genexe = None
+        self._genexes = {}
         self.kf_defs = []
         import threading
         self._lock = threading.RLock()
@@ -432,18 +524,37 @@ class Module:
         with self._lock:
             return self._native()
 
-    def genc_native(self):
-        with self._lock:
-            return self._genc_native()
-
     def _lower(self):
-        if self.cfile:
+        """compile + link once; the per-entry reduction/translation happens in cfile_for"""
+        if self.linked:
             return
         ctx = self.ctx
-        ll = ctx.build_ir(self.name, self.tus + ['@h/' + self.harness] + list(self.support), self.entries,
-                          defs=tuple(self.defs) + tuple(self.kf_defs), keep=self.keep)
-        self.cfile, self.info = ctx.to_c(ll, self.name, overrides=self.overrides, stubs=self.stubs, traps=self.traps)
-        enc = [f for f in self.info['functions']]
+        self.linked = ctx.build_ir(self.name, self.tus + ['@h/' + self.harness] + list(self.support), None,
+                                   defs=tuple(self.defs) + tuple(self.kf_defs), keep=self.keep)
+
+    def cfile_for(self, entry):
+        """internalize to ONE entry, dead-code-eliminate, translate: vtables (hence indirect-call
+        candidates) of classes the entry never constructs disappear"""
+        with self._lock:
+            self._lower()
+            if entry in self.cfiles:
+                return self.cfiles[entry]
+        ctx = self.ctx
+        ll = ctx.reduce_ir(self.linked, [entry], self.keep, tag='red-' + entry)
+        if self.inline:
+            ll = ctx.inline_ir(ll, keep_rx=list(self.traps) + list(self.empties) + ['^' + re.escape(o) + '$' for o in self.overrides]
+                               + ['^' + re.escape(entry) + '$', '^vp_'])
+        cfile, info = ctx.to_c(ll, entry, overrides=self.overrides, stubs=self.stubs, traps=self.traps, empties=self.empties)
+        with self._lock:
+            self.cfiles[entry] = cfile
+            self.info = info
+            self._account(info)
+        return cfile
+
+    def _account(self, info):
+        ctx = self.ctx
+        self.cfile = True
+        enc = [f for f in info['functions']]
         dm = demangle(enc)
         for f in dm:
             if f and not f.startswith('std::') and not f.startswith('__gnu_cxx') and not f.startswith('void std::') \
@@ -459,18 +570,23 @@ class Module:
                                        defs=tuple(self.defs) + tuple(self.kf_defs), libs=self.native_libs)
         return self._exe
 
-    def _genc_native(self):
+    def genc_native_for(self, entry):
         """gcc build of the generated C + stubs (translation validation)"""
-        if self._genexe is None:
-            d = os.path.dirname(self.cfile)
-            exe = os.path.join(d, self.name + '-genc')
-            cmd = ['gcc', '-O1', '-w', '-fno-strict-aliasing', '-DVP_GENC', '-I', ENGINE, self.cfile] + \
+        cfile = self.cfile_for(entry)
+        with self._lock:
+            if entry in self._genexes:
+                return self._genexes[entry]
+        if True:
+            d = os.path.dirname(cfile)
+            exe = os.path.join(d, entry + '-genc')
+            cmd = ['gcc', '-O1', '-w', '-fno-strict-aliasing', '-DVP_GENC', '-I', ENGINE, cfile] + \
                   [os.path.join(STUBS, s) for s in self.stubs] + [os.path.join(STUBS, 'vp_native.c'), '-rdynamic', '-ldl', '-o', exe]
             rc, o, e, _, _ = sh(cmd, timeout=600)
             if rc != 0:
                 raise Inconclusive('gcc of generated C failed: ' + e[-1500:])
-            self._genexe = exe
-        return self._genexe
+            with self._lock:
+                self._genexes[entry] = exe
+        return exe
 
 
 def run_entry(ctx, mod, entry, unwind, timeout=600, backend=None, unwindset=None, object_bits=12, note='',
@@ -478,14 +594,14 @@ def run_entry(ctx, mod, entry, unwind, timeout=600, backend=None, unwindset=None
     """check one harness entry; fills ctx.obligations etc.  Returns verdict string."""
     ob = dict(harness=entry, module=mod.name, unwind=unwind, backend=backend or 'cbmc-default-sat', bounds=bounds or note)
     try:
-        mod.lower()
+        cfile = mod.cfile_for(entry)
     except Inconclusive as e:
         ob.update(verdict='inconclusive', reason=str(e)[:600])
         ctx.obligations.append(ob)
         ctx.inconclusive.append(dict(harness=entry, reason=ob['reason']))
         log('INCONCLUSIVE property=%s harness=%s %s' % (ctx.prop, entry, ob['reason'][:300]))
         return 'inconclusive'
-    res = ctx.cbmc(mod.cfile, entry, unwind, stubs=mod.stubs, unwindset=unwindset, timeout=timeout, backend=backend,
+    res = ctx.cbmc(cfile, entry, unwind, stubs=mod.stubs, unwindset=unwindset, timeout=timeout, backend=backend,
                    object_bits=object_bits, memlimit_gb=memlimit_gb, extra=extra)
     ob.update(seconds=res['wall'], rss_mb=res['rss_mb'])
     def inconc(reason):
@@ -567,7 +683,7 @@ def run_entry(ctx, mod, entry, unwind, timeout=600, backend=None, unwindset=None
         ctx.traces_validated += 1
         tv = 0
         if tv_seeds:
-            gexe = mod.genc_native()
+            gexe = mod.genc_native_for(entry)
             import random
             rnd = random.Random(ctx.seed * 7919 + hash(entry) % 1000)
             for k in range(tv_seeds + 1):
